@@ -468,6 +468,29 @@ pub fn gen_refs(root: &Path, out: &mut Output) {
             .collect();
         text.push_str(&format!("def cargoFeatureGraph : List (String × List String) := [{}]\n\n", graph.join(", ")));
     }
+    // build scripts: code that runs on the *build* machine and can switch cfgs the source is conditioned on
+    {
+        let mut scripts: Vec<String> = vec![];
+        for cand in ["cfavml/build.rs"] {
+            if let Ok(t) = fs::read_to_string(root.join(cand)) {
+                let mut cfgs: BTreeSet<String> = BTreeSet::new();
+                for piece in t.split("rustc-cfg=").skip(1) {
+                    let name: String = piece.chars().take_while(|c| c.is_alphanumeric() || *c == '_' || *c == '{' || *c == '}').collect();
+                    cfgs.insert(name);
+                }
+                scripts.push(format!("({}, [{}])", lstr(cand), cfgs.iter().map(|c| lstr(c)).collect::<Vec<_>>().join(", ")));
+            }
+        }
+        if let Ok(t) = fs::read_to_string(root.join("cfavml/Cargo.toml")) {
+            for l in t.lines() {
+                let l = l.trim();
+                if l.starts_with("build") && l.contains('=') && !l.starts_with("build-") {
+                    scripts.push(format!("({}, [])", lstr(&format!("Cargo.toml: {l}"))));
+                }
+            }
+        }
+        text.push_str(&format!("/-- build scripts of the crate and the cfgs they emit (`cargo:rustc-cfg=…`) -/\ndef buildScripts : List (String × List String) := [{}]\n\n", scripts.join(", ")));
+    }
     // intrinsic -> required features
     let snap = Path::new(env!("CARGO_MANIFEST_DIR")).join("stdarch_features.tsv");
     match fs::read_to_string(&snap) {
